@@ -80,4 +80,10 @@ def check(ctx):
     from .c09 import check_initial_value
 
     check_initial_value(ctx, "C03-k", "C03-k", classes=("FlowProperties",))
+    from .c01 import check_alpha_lookup
+
+    check_alpha_lookup(ctx, "C03-m")
+    from .c04 import check_solver_sites
+
+    check_solver_sites(ctx, "C03-l")  # a loosely converged step creates or destroys mass
     ctx.floor("C03", len(ctx.obligs), 10, "recovery obligations")
